@@ -61,7 +61,10 @@ struct SimAlloc : AllocState<Tr>
 
     T* allocate(std::size_t n)
     {
-        return static_cast<T*>(g_heap.allocate(n * sizeof(T), alignof(T), this->id(), std::is_same_v<T, std::size_t>));
+        // a count whose byte size does not fit in size_t is passed on as "more than anything legitimate" (what
+        // std::allocator answers with bad_array_new_length), never as its wrapped-around product
+        const std::size_t bytes = n > static_cast<std::size_t>(-1) / sizeof(T) ? static_cast<std::size_t>(-1) : n * sizeof(T);
+        return static_cast<T*>(g_heap.allocate(bytes, alignof(T), this->id(), std::is_same_v<T, std::size_t>));
     }
 
     void deallocate(T* p, std::size_t n) noexcept
